@@ -471,6 +471,10 @@ def calculate_structure_function(phase, nbOfPoint=None, step=None):
     if step is None:
         step = 1
     step = int(step)
+    if numpy.asarray(phase).dtype.kind in "iub":
+        # integer phases (counts, DM steps): the squared differences below would overflow in a narrow integer type
+        phase = numpy.asarray(phase, dtype=float)
+
     xm = int(numpy.min([nbOfPoint, phase.shape[1] / step - 1]))
     sf_x = numpy.zeros(xm)
     for i in range(step, xm * step, step):
